@@ -4,7 +4,7 @@
     a non-blank ASCII character is left alone by [str::trim]. *)
 From Coq Require Import NArith Arith List Bool Lia.
 From Coq Require Import ZifyBool ZifyNat ZifyN.
-From Snel Require Import Base.Bytes Model.Tokenizer Model.Parser Model.Command Model.Printer Proofs.ParserBasics.
+From Snel Require Import Base.Bytes Gen.Params Model.Tokenizer Model.Parser Model.Command Model.Printer Proofs.ParserBasics.
 Import ListNotations.
 Open Scope N_scope.
 
@@ -13,6 +13,25 @@ Open Scope N_scope.
 Definition outc (c : N) : bool :=
   is_tws c || (c =? 123) || (c =? 125) || (c =? 59) || is_digit c || (c =? 45) || is_symchar c
   || (c =? 91) || (c =? 93) || (c =? 40) || (c =? 41) || is_wordchar c.
+
+(** facts about the regenerated symbol set, by computation: no symbol character is a letter, a digit,
+    an identifier character other than '.', a quote, a backslash, white space or non-ASCII; and the
+    characters the printer relies on are symbols *)
+Definition sym_side (k : N) : bool :=
+  negb (is_alpha k) && negb (is_digit k) && negb (k =? 95) && negb (k =? 45) && negb (k =? 34) && negb (k =? 92)
+  && negb (is_ascii_ws k) && (k <? 128).
+
+Lemma sym_side_all : forallb sym_side tokenizer_symbol_chars = true.
+Proof. vm_compute. reflexivity. Qed.
+
+Lemma symchar_side : forall c, is_symchar c = true -> sym_side c = true.
+Proof.
+  intros c H. unfold is_symchar in H. apply existsb_exists in H as (k & Hin & E). apply N.eqb_eq in E. subst k.
+  pose proof sym_side_all as A. rewrite forallb_forall in A. auto.
+Qed.
+
+Lemma printer_symbols : forallb is_symchar [46; 44; 61; 62; 60; 33] = true.
+Proof. vm_compute. reflexivity. Qed.
 
 (** the two-state scan: outside / inside a string literal (backslash escapes one char) *)
 Fixpoint lex_ok (instr : bool) (s : bytes) : bool :=
@@ -105,12 +124,16 @@ Lemma neutral_nil : neutral [].
 Proof. intro b. reflexivity. Qed.
 Lemma neutral_app : forall a b, neutral a -> neutral b -> neutral (a ++ b).
 Proof. intros a b Ha Hb c. rewrite <- app_assoc, Ha, Hb. reflexivity. Qed.
+Lemma outc_noquote : forall c, outc c = true -> (c =? 34) = false.
+Proof.
+  intros c Hc. destruct (is_symchar c) eqn:S.
+  - apply symchar_side in S. unfold sym_side in S. lia.
+  - unfold outc in Hc. rewrite S in Hc. unfold is_tws, is_digit, is_wordchar, is_alnum, is_alpha, is_digit in Hc. lia.
+Qed.
+
 Lemma neutral_cons : forall c t, outc c = true -> neutral t -> neutral (c :: t).
 Proof.
-  intros c t Hc Ht b. cbn [app lex_ok].
-  assert (E : (c =? 34) = false).
-  { unfold outc, is_tws, is_digit, is_symchar, is_wordchar, is_alnum, is_alpha, is_digit in Hc. lia. }
-  rewrite E, Hc. apply Ht.
+  intros c t Hc Ht b. cbn [app lex_ok]. rewrite (outc_noquote c Hc), Hc. apply Ht.
 Qed.
 Lemma neutral_plain : forall t, forallb outc t = true -> neutral t.
 Proof.
